@@ -177,6 +177,40 @@ Fixpoint join_sp (l : list string) : string :=
 Fixpoint mem_str (k : string) (l : list string) : bool :=
   match l with [] => false | x :: l' => String.eqb k x || mem_str k l' end.
 
+(* line.rstrip("\n") *)
+Definition nl : ascii := ascii_of_nat 10.
+Fixpoint lstrip_nl (s : string) : string :=
+  match s with
+  | String c s' => if Ascii.eqb c nl then lstrip_nl s' else s
+  | EmptyString => EmptyString
+  end.
+Definition rstrip_nl (s : string) : string := rev_string (lstrip_nl (rev_string s "")) "".
+Definition truthy_str (s : string) : bool := negb (String.eqb s EmptyString).
+(* l[i:] for a non-negative literal i *)
+Definition py_slice_from {A} (l : list A) (i : Z) : list A := skipn (Z.to_nat i) l.
+
+(* a dict of str -> str, in insertion order *)
+Definition dict_mem (k : string) (d : list (string * string)) : bool := mem_str k (map fst d).
+Fixpoint dict_set (d : list (string * string)) (k v : string) : list (string * string) :=
+  match d with
+  | [] => [(k, v)]
+  | (k', v') :: d' => if String.eqb k k' then (k, v) :: d' else (k', v') :: dict_set d' k v
+  end.
+Definition dict_pop (d : list (string * string)) (k : string) : list (string * string) :=
+  filter (fun kv => negb (String.eqb (fst kv) k)) d.
+
+(* what reading the map file of signals-to-torch-feat-dir ends in *)
+Inductive MapResult : Type :=
+| MapOk (utt2path : list (string * string))
+| MapExit (code : Z)               (* a complaint on stderr and "return code" *)
+| MapRaise (e : exn).
+
+(* shapes of text used to state what a well-formed map file is *)
+Fixpoint all_space (s : string) : bool :=
+  match s with EmptyString => true | String c s' => is_space c && all_space s' end.
+Fixpoint no_space (s : string) : bool :=
+  match s with EmptyString => true | String c s' => negb (is_space c) && no_space s' end.
+
 (** * SPECIFICATION: the pipeline of the property statement *)
 Section Spec.
   Context {L : Lib}.
